@@ -24,8 +24,9 @@ import sys
 import time
 
 VERIF = os.path.dirname(os.path.dirname(os.path.abspath(__file__)))
-EVIDENCE_DIR = os.path.join(VERIF, "evidence")
-REPLAY_DIR = os.path.join(VERIF, "replays")
+# (the two overrides exist for development-time runs against scratch copies; registered commands never set them)
+EVIDENCE_DIR = os.environ.get("VERIF_EVIDENCE_DIR") or os.path.join(VERIF, "evidence")
+REPLAY_DIR = os.environ.get("VERIF_REPLAY_DIR") or os.path.join(VERIF, "replays")
 KNOWN_FILE = os.path.join(VERIF, "known_findings.json")
 MAX_REPORTED = 12
 ROTATIONS = 4
@@ -90,12 +91,15 @@ def _worker_main(wid, nworkers, wfd, shm, make_cases, run_case, init, start_inde
     last_flush = time.time()
     last_idx = start_index - 1
     slot = wid * 16
+    only = os.environ.get("VERIF_ONLY_HASH")
     try:
         it = make_cases()
         for idx, (cid, case) in enumerate(it):
             if idx % nworkers != wid or idx < start_index:
                 continue
             if idx in skip:
+                continue
+            if only and case_hash(cid) != only:
                 continue
             shm[slot:slot + 16] = struct.pack("<qd", idx, time.time())
             try:
@@ -481,8 +485,9 @@ def finish(prop_id, level, tier, seed, total, t0, rule, assumptions, bounds, exh
         "wall_s": round(wall, 2),
         "violations": len(unknown),
     }
-    with open(os.path.join(EVIDENCE_DIR, f"{prop_id}.json"), "w") as f:
-        json.dump(ev, f, indent=1, default=repr)
+    if not os.environ.get("VERIF_ONLY_HASH"):
+        with open(os.path.join(EVIDENCE_DIR, f"{prop_id}.json"), "w") as f:
+            json.dump(ev, f, indent=1, default=repr)
     for ln in lines:
         print(ln)
     print(f"{prop_id} tier={tier} seed={seed} evaluations={coverage['evaluations']} "
